@@ -29,6 +29,7 @@ import (
 	"verifsim/harness/common"
 	"verifsim/simhost"
 	"verifsim/simnet"
+	"verifsim/simrand"
 	"verifsim/simrt"
 	"verifsim/simsync"
 )
@@ -92,6 +93,9 @@ func (h *harness) see(c network.Conn) *connRec {
 	if r == nil {
 		r = &connRec{id: id, peer: h.peerIdx[c.RemotePeer()], conn: c, firstSeen: simrt.Stamp()}
 		h.conns[id] = r
+		if strings.Contains(c.RemoteMultiaddr().String(), "/quic-v1") {
+			h.o.Probe("quic-connection-seen")
+		}
 	}
 	return r
 }
@@ -185,7 +189,15 @@ func run(t *testing.T, tape *simrt.Tape) *common.Outcome {
 	if closeTrigger == 1 {
 		closeAfter = g.Int(6)
 	}
-	o.Logf("peers=%d notifiees=%d slowSub=%v subBuf=%d stall=%d closeRace=%v/%d", nPeers, nNotif, slowSub, subBuf, stall, closeRace, closeAfter)
+	// transport of the DIRECT connections: 0 TCP (insecure + yamux), 1 QUIC only, 2 both addresses known (the dial ranker
+	// races them; a peer can end up with a QUIC and a TCP connection). Limited connections stay on TCP. QUIC connections
+	// do not implement network.ConnStat, are closed by CONNECTION_CLOSE datagrams and carry their own muxer: other code
+	// paths into the same swarm bookkeeping.
+	tmix := g.Weighted(3, 1, 1)
+	if tmix != 0 {
+		defer simrand.Install(uint64(tmix))()
+	}
+	o.Logf("peers=%d notifiees=%d slowSub=%v subBuf=%d stall=%d closeRace=%v/%d transports=%d", nPeers, nNotif, slowSub, subBuf, stall, closeRace, closeAfter, tmix)
 	for i, n := range notifs {
 		o.Logf(" notifiee%d onConnected=%d onDisconnected=%d", i, n.onConn, n.onDisc)
 	}
@@ -221,7 +233,7 @@ func run(t *testing.T, tape *simrt.Tape) *common.Outcome {
 				upgradedOnce.Do(func() { close(upgraded) })
 			}
 		}}
-		S, err := simhost.New(n, simhost.Opts{Key: simhost.DetKey(1), IP: "10.0.0.1", Port: 4001, Security: "insecure", Bus: bus, Limited: isLimited, Gater: gater})
+		S, err := simhost.New(n, simhost.Opts{Key: simhost.DetKey(1), IP: "10.0.0.1", Port: 4001, Security: "insecure", Bus: bus, Limited: isLimited, Gater: gater, QUIC: tmix != 0})
 		if err != nil {
 			o.Trouble = err.Error()
 			return
@@ -236,15 +248,24 @@ func run(t *testing.T, tape *simrt.Tape) *common.Outcome {
 			lpeers = append(lpeers, lp)
 			lp.PS.AddAddrs(S.ID, []ma.Multiaddr{S.Addr}, peerstore.PermanentAddrTTL)
 			lp.Swarm.SetStreamHandler(func(s network.Stream) { s.Reset() })
-			p, err := simhost.New(n, simhost.Opts{Key: simhost.DetKey(10 + i), IP: fmt.Sprintf("10.0.1.%d", i+1), Port: 4001, Security: "insecure"})
+			p, err := simhost.New(n, simhost.Opts{Key: simhost.DetKey(10 + i), IP: fmt.Sprintf("10.0.1.%d", i+1), Port: 4001, Security: "insecure", QUIC: tmix != 0})
 			if err != nil {
 				o.Trouble = err.Error()
 				return
 			}
 			peers = append(peers, p)
 			h.peerIdx[p.ID] = i
-			S.PS.AddAddrs(p.ID, []ma.Multiaddr{p.Addr}, peerstore.PermanentAddrTTL)
-			p.PS.AddAddrs(S.ID, []ma.Multiaddr{S.Addr}, peerstore.PermanentAddrTTL)
+			direct := func(nd *simhost.Node) []ma.Multiaddr {
+				switch tmix {
+				case 1:
+					return []ma.Multiaddr{nd.QAddr}
+				case 2:
+					return []ma.Multiaddr{nd.QAddr, nd.Addr}
+				}
+				return []ma.Multiaddr{nd.Addr}
+			}
+			S.PS.AddAddrs(p.ID, direct(p), peerstore.PermanentAddrTTL)
+			p.PS.AddAddrs(S.ID, direct(S), peerstore.PermanentAddrTTL)
 			p.Swarm.SetStreamHandler(func(s network.Stream) { s.Reset() })
 		}
 		closeS := func() {
@@ -578,7 +599,10 @@ func run(t *testing.T, tape *simrt.Tape) *common.Outcome {
 	if len(res.Residue) > 0 {
 		o.Violate("C06/residue", "goroutines left after everything was closed: %v", res.Residue)
 	}
-	o.Sig = sig.String()
+	o.Sig = sig.String() + fmt.Sprintf("|t%d", tmix)
+	if tmix != 0 {
+		o.Probe([...]string{"", "direct-connections-over-quic", "direct-connections-over-quic-and-tcp"}[tmix])
+	}
 	o.Nontrivial = len(h.conns) > 0
 	for _, nf := range notifs {
 		for id := range nf.connected {
